@@ -89,6 +89,11 @@ func init() {
 	p := &fsx.Probe{Full: 1 << 20, Windows: []uint64{300 * 4096, 100 * 4096}}
 	key := func(w *World) string { w.Probe = p; return w.defaultKey() }
 	RegisterSeq("c10.seq", &SeqSpec{Prop: "C10", DiskSize: 3000, Alphabet: c10Alphabet(), After: c10After, Key: key})
+	// the inode table exhausted: 32765 live objects, a directory of 1024 blocks
+	RegisterSeq("c10.inodes", &SeqSpec{Prop: "C10", Prep: "inofull", After: c10After, Key: key, AllowImplFail: true, Alphabet: []fsx.Op{
+		{K: "REMOVE", H: "root/bulk", N: "f16000"}, {K: "CREATE", H: "root", N: "n1"}, {K: "CREATE", H: "root/bulk", N: "n1"}, {K: "MKDIR", H: "root/d", N: "n2"},
+		{K: "RENAME", H: "root/bulk", N: "f00000", H2: "root/bulk", N2: "f00001"}, {K: "SETATTR", H: "root/bulk/f32700", Size: 5000}, {K: "REMOVETHIRD", H: "root/bulk"},
+	}})
 	RegisterSeq("c10.seq.ic6", &SeqSpec{Prop: "C10", DiskSize: 3000, Alphabet: c10Alphabet(), After: c10After, Key: key, ICacheSz: 6})
 }
 
@@ -98,8 +103,9 @@ func C10(r *report.Report, tier string) {
 		depth = 5
 	}
 	r.Only = map[string]bool{"C10": true}
-	r.Rule = fmt.Sprintf("breadth-first search to depth %d over the C02 namespace alphabet plus macro-operations (120 files in one directory = more live inodes than the inode cache holds, 40 entries = a directory of two blocks, remove every third entry), refused operations and hole-filling reads, with the inode cache at its real size 100 and scaled to 6; in every state (quiescent, flushed): cache/allocator audit against the logical disk, then an exact dump (handle bytes, every attribute incl. times and nlink, READDIR/READDIRPLUS order and cookies, every byte) of the running server must equal the dump of a server recovered from the disk image at that point and the dump after a clean restart on the same disk", depth)
+	r.Rule = fmt.Sprintf("breadth-first search to depth %d over the C02 namespace alphabet plus macro-operations (120 files in one directory = more live inodes than the inode cache holds, 40 entries = a directory of two blocks, remove every third entry), refused operations and hole-filling reads, with the inode cache at its real size 100 and scaled to 6, and (depth two less) from the state with the inode table exhausted (32765 live objects, a directory of 1024 blocks); in every state (quiescent, flushed): cache/allocator audit against the logical disk, then an exact dump (handle bytes, every attribute incl. times and nlink, READDIR/READDIRPLUS order and cookies, every byte) of the running server must equal the dump of a server recovered from the disk image at that point and the dump after a clean restart on the same disk", depth)
 	s1 := RunSeq(r, "c10.seq", depth)
 	s2 := RunSeq(r, "c10.seq.ic6", depth)
-	r.Extra["searches"] = []*SeqSummary{s1, s2}
+	s3 := RunSeq(r, "c10.inodes", depth-2)
+	r.Extra["searches"] = []*SeqSummary{s1, s2, s3}
 }
